@@ -159,15 +159,6 @@ func (p *Program) installFmtStrings() {
 		}
 		return r
 	}
-	in["strings.TrimSpace"] = func(fr *frame, a []Value) Value {
-		s := a[0].(Str)
-		if s.IsConcrete() {
-			return MkStr(strings.TrimSpace(s.Concrete()))
-		}
-		unsupportedf("strings.TrimSpace symbolic")
-		return nil
-	}
-
 	// ---- strings.Builder: buf kept in the real field
 	bufOf := func(fr *frame, recv Value) *Value {
 		p := recv.(*Value)
@@ -260,7 +251,7 @@ func strToByteSlice(s Str) Slice {
 // sprintf implements the subset of fmt verbs the code under analysis uses.
 func (m *Machine) sprintf(fr *frame, format Str, args []Value) Str {
 	if !format.IsConcrete() {
-		unsupportedf("symbolic format string")
+		return m.sprintfSym(fr, format, args)
 	}
 	f := format.Concrete()
 	var out Str
@@ -302,6 +293,73 @@ func (m *Machine) sprintf(fr *frame, format Str, args []Value) Str {
 	}
 	flush()
 	return out
+}
+
+// sprintfSym handles a format string with symbolic bytes (a caller that builds its format
+// from data): each symbolic byte is either an ordinary character or '%' (a fork); a '%'
+// followed by a symbolic byte is "%%" or a verb (a fork). Verbs given by symbolic bytes are
+// supported when no operand is left for them ("%!v(MISSING)"); flags, widths, non-ASCII
+// verbs and symbolic verbs that consume an operand end the path as unsupported.
+func (m *Machine) sprintfSym(fr *frame, format Str, args []Value) Str {
+	f := format.Terms()
+	var out []*Term
+	lit := func(s string) {
+		for i := 0; i < len(s); i++ {
+			out = append(out, K(8, uint64(s[i])))
+		}
+	}
+	isPct := func(t *Term) bool {
+		if t.IsConst() {
+			return t.val == '%'
+		}
+		return m.branch(Cmp(OpEq, t, K(8, '%')))
+	}
+	ai := 0
+	for i := 0; i < len(f); i++ {
+		c := f[i]
+		if !isPct(c) {
+			out = append(out, c)
+			continue
+		}
+		i++
+		if i >= len(f) {
+			lit("%!(NOVERB)")
+			break
+		}
+		v := f[i]
+		if isPct(v) {
+			out = append(out, K(8, '%'))
+			continue
+		}
+		if v.IsConst() {
+			if strings.IndexByte("+-# 0123456789.[]*", byte(v.val)) >= 0 || v.val >= 0x80 {
+				unsupportedf("symbolic format string with flags, width or a non-ASCII verb")
+			}
+			if ai < len(args) {
+				out = append(out, m.fmtValue(fr, args[ai], byte(v.val)).Terms()...)
+				ai++
+				continue
+			}
+		} else {
+			plain := Cmp(OpUlt, v, K(8, 0x80))
+			for _, fc := range []byte("+-# 0123456789.[]*") {
+				plain = BAnd(plain, BNot(Cmp(OpEq, v, K(8, uint64(fc)))))
+			}
+			if !m.branch(plain) {
+				unsupportedf("symbolic format string with flags, width or a non-ASCII verb")
+			}
+			if ai < len(args) {
+				unsupportedf("symbolic verb consuming an operand")
+			}
+		}
+		lit("%!")
+		out = append(out, v)
+		lit("(MISSING)")
+	}
+	if ai < len(args) {
+		unsupportedf("symbolic format string with surplus operands")
+	}
+	return StrFromTerms(out)
 }
 
 func (m *Machine) fmtValue(fr *frame, v Value, verb byte) Str {
@@ -365,12 +423,26 @@ func (m *Machine) fmtValue(fr *frame, v Value, verb byte) Str {
 				}
 			}
 		}
+		if verb == 'v' || verb == 's' || verb == 'd' {
+			// fmt prints a slice as its elements, blank-separated, in brackets
+			out := MkStr("[")
+			for i := 0; i < x.len; i++ {
+				if i > 0 {
+					out = StrConcat(out, MkStr(" "))
+				}
+				out = StrConcat(out, m.fmtValue(fr, *x.At(i), verb))
+			}
+			return StrConcat(out, MkStr("]"))
+		}
+		m.noteOnce("approx: slice formatted with verb " + string(verb) + " rendered in the engine's own notation (message text only)")
 		return MkStr(showValue(x))
 	case *Value:
+		m.noteOnce("approx: pointer formatted as a fixed address (message text only)")
 		return MkStr("0xc000000000")
 	case Opaque:
 		return MkStr(fmt.Sprint(x.v))
 	}
+	m.noteOnce("approx: composite value rendered in the engine's own notation (message text only)")
 	return MkStr(showValue(v))
 }
 
